@@ -161,6 +161,17 @@ def run(cx, rep):
             uses = [t for t in f.calls if (t.path or "").endswith("Try::branch") and op_place(t.term["args"][0]) and op_place(t.term["args"][0])["l"] == c.term["dest"]["l"]]
             rep.ob("C07.2", "tail-from-materialisation", from_tail, "inserted definition does not come from semtype_to_runtypes", "%s:%s" % (c.file, c.line))
             rep.ob("C07.2", "insert-result-propagated", len(uses) == 1, "the result of insert_definition is dropped (a clash would go unnoticed)", "%s:%s" % (c.file, c.line))
+        # the head of the materialisation is named too (the name the caller passed in); when the result is
+        # recursive at the top level it refers to itself by that name, so the caller must define it as well
+        tree = F.hir.get(f.id)
+        head_fields = set()
+        for n in walk(tree["body"]):
+            if n["k"] == "Field" and locals_in(n["e"]) == ["head"]:
+                head_fields.add(n["name"])
+        head_defined = "name" in head_fields and any(n["k"] == "MethodCall" and n["method"] == "insert_definition" and "head" in locals_in(n) for n in walk(tree["body"]))
+        rep.ob("C07.2", "head-definition-dropped", head_defined or not head_fields,
+               "semtype_to_runtype returns head.schema but never defines head.name (semtype_to_runtypes filters the head out of the helper list): when the semantic result is recursive at its top level the returned type refers to a name (`AnyName`) that is defined nowhere",
+               f.loc(), sample={"head_fields_used": sorted(head_fields)})
         cnt = [c for c in calls if any(a.get("place") for a in c.term["args"])]
         for c in calls:
             # the counter argument must be a `&mut` borrow of the frontend's own `counter` field (not a copy)
